@@ -16,7 +16,8 @@ ASSUMPTIONS = ["'parses as a number' is Python's float() grammar; the Lean model
 SPELL = ["{x}", " {x}", "{x} ", "\t{x}\n", "+{x}", "-{x}", "{x}0", "0{x}", "{x}00000000000000001", "{x}e0", "{x}E+0", "{x}e-0",
          "{t}e-1", "{t}E-1", "{t}e-01", "0.{t}e1", "{t}_0e-2", "{x}_", "_{x}", "{x}e", "{x}e1", "{x}f", "0x{t}", "{x}.", ".{x}",
          "{x}/", "nan", "NaN", "inf", "-inf", "Infinity", "", " ", "None", "{x}e400", "{x}e-400", "1e-400", "{x}L", "{x}j",
-         "{x} {x}", "{lo}", "{hi}", "７.５", "٧.٥", "{x} ", "{x}\x00", "1__0", "1_0", "١٠", "{x}e1_0"]
+         "{x} {x}", "{lo}", "{hi}", "{x}0000000050", "{x}00000000050", "{x}000000000001", "{x}0000001", "0.0000000001", "1e-10",
+         "{x}00000000000000000000000000000000000000001", "{x}e0000000000000000000000", "1e99999999999999999999", "1e-99999999999999999999", "７.５", "٧.٥", "{x} ", "{x}\x00", "1__0", "1_0", "١٠", "{x}e1_0"]
 
 
 def expect(ver, text):
